@@ -1,7 +1,7 @@
 (* C12 correspondence harness: the Python driver writes (verb code, list argument A, list argument B,
    input stream, stream observed from mlr); vm_compute evaluates the model on the same input. *)
-From Miller Require Import Base.Bytes Base.Record C12.Model.
+From Miller Require Import Base.Bytes Base.Record C12.Model C12.Model2.
 Open Scope Z_scope.
 
 Definition chk (c : Z * list bytes * list bytes * list record * list record) : bool :=
-  let '(code, a, b, input, obs) := c in records_eqb (run_verb code a b input) obs.
+  let '(code, a, b, input, obs) := c in records_eqb (run_verb2 code a b input) obs.
